@@ -289,3 +289,161 @@ func vfRunRTBlockDeadline(_ *testing.T, spec *vfSpec, res *vfRes) {
 	res.res.Sig = fmt.Sprintf("rt-block-deadline|il%v|d%d", il, spec.x("deadline_ms", 300))
 	res.res.Sample = map[string]any{"kind": "rt-block-deadline", "interleaving": il, "deadline_ms": spec.x("deadline_ms", 300), "accepted": len(want), "read": len(got)}
 }
+
+// vfRunRTStorm: a short real-time API storm for the schedules that cannot run in virtual time: blocking-write mode
+// with several writers per stream (they queue on the stream's write mutex), write deadlines, concurrent readers and
+// a concurrent Close. Oracles: the race detector (race shards), the watchdog's stack classifier (a real deadlock
+// shows goroutines parked on sctp mutexes with nothing running), every call returns once both sides are closed.
+//
+//nolint:gocognit,cyclop
+func vfRunRTStorm(_ *testing.T, spec *vfSpec, res *vfRes) {
+	il := spec.A.IL
+	ca, cb := vfRTPipe()
+	lf := &vfLogFactory{sink: &vfLogSink{}}
+	type hs struct {
+		a   *Association
+		err error
+	}
+	chA, chB := make(chan hs, 1), make(chan hs, 1)
+	go func() {
+		a, err := ClientWithOptions(WithNetConn(ca), WithLoggerFactory(lf), WithBlockWrite(true), WithEnableInterleaving(il), WithName("rtA"))
+		chA <- hs{a, err}
+	}()
+	go func() {
+		a, err := ServerWithOptions(WithNetConn(cb), WithLoggerFactory(lf), WithBlockWrite(true), WithMaxReceiveBufferSize(uint32(spec.x("rbuf", 65536))), WithEnableInterleaving(il), WithName("rtB")) //nolint:gosec
+		chB <- hs{a, err}
+	}()
+	var assoc [2]*Association
+	for i := 0; i < 2; i++ {
+		select {
+		case h := <-chA:
+			assoc[0], chA = h.a, nil
+		case h := <-chB:
+			assoc[1], chB = h.a, nil
+		case <-time.After(20 * time.Second):
+			res.inconclusive("real-time handshake did not finish in 20 s")
+			_ = ca.Close()
+			_ = cb.Close()
+
+			return
+		}
+	}
+	if assoc[0] == nil || assoc[1] == nil {
+		res.inconclusive("real-time handshake failed")
+		_ = ca.Close()
+		_ = cb.Close()
+
+		return
+	}
+	nStreams := 2
+	var streams [2][]*Stream
+	for side := 0; side < 2; side++ {
+		for i := 0; i < nStreams; i++ {
+			s, err := assoc[side].OpenStream(uint16(1+i), PayloadTypeWebRTCBinary) //nolint:gosec
+			if err != nil {
+				res.inconclusive("OpenStream failed")
+
+				return
+			}
+			streams[side] = append(streams[side], s)
+		}
+	}
+	var wg sync.WaitGroup
+	stop := make(chan struct{})
+	var calls, failed, delivered int64
+	var cmu sync.Mutex
+	bump := func(p *int64) {
+		cmu.Lock()
+		*p++
+		cmu.Unlock()
+		vfProgress.Add(1)
+	}
+	for side := 0; side < 2; side++ {
+		side := side
+		for _, s := range streams[side] {
+			s := s
+			// three writers per stream: they queue on the stream's write mutex while one waits at the gate
+			for wi := 0; wi < 3; wi++ {
+				wi := wi
+				wg.Add(1)
+				go func() {
+					defer wg.Done()
+					r := vfNewRand(vfHash(spec.Seed, uint64(side), uint64(s.StreamIdentifier()), uint64(wi)))
+					for i := 0; i < int(spec.x("ops", 60)); i++ {
+						select {
+						case <-stop:
+							return
+						default:
+						}
+						if r.Intn(3) == 0 {
+							_ = s.SetWriteDeadline(time.Now().Add(time.Duration(r.Pick(1, 5, 20)) * time.Millisecond))
+						} else if r.Intn(3) == 0 {
+							_ = s.SetWriteDeadline(time.Time{})
+						}
+						_, err := s.WriteSCTP(vfStormMsg(side, wi, s.StreamIdentifier(), uint32(i), 16+r.Intn(3000)), PayloadTypeWebRTCBinary) //nolint:gosec
+						bump(&calls)
+						if err != nil {
+							bump(&failed)
+						}
+						_ = s.BufferedAmount()
+					}
+				}()
+			}
+			wg.Add(1)
+			go func() {
+				defer wg.Done()
+				buf := make([]byte, 8192)
+				for {
+					n, _, err := s.ReadSCTP(buf)
+					if err != nil {
+						if errors.Is(err, os.ErrDeadlineExceeded) {
+							_ = s.SetReadDeadline(time.Time{})
+
+							continue
+						}
+
+						return
+					}
+					bump(&calls)
+					if _, _, _, _, ok := vfStormCheckMsg(buf[:n]); !ok {
+						res.violate("C01", "deliver/corrupt", "real-time storm: a %d-byte message was read that no writer produced", n)
+					}
+					bump(&delivered)
+				}
+			}()
+		}
+	}
+	time.Sleep(time.Duration(spec.x("run_ms", 1500)) * time.Millisecond)
+	// terminal calls from several goroutines while writers are parked and queued
+	var tw sync.WaitGroup
+	for side := 0; side < 2; side++ {
+		a := assoc[side]
+		for k := 0; k < 2; k++ {
+			tw.Add(1)
+			go func() {
+				defer tw.Done()
+				_ = a.Close()
+			}()
+		}
+	}
+	tw.Wait()
+	close(stop)
+	done := make(chan struct{})
+	go func() { wg.Wait(); close(done) }()
+	select {
+	case <-done:
+	case <-time.After(45 * time.Second):
+		// real time: not a verdict by itself; the watchdog classifies a true deadlock from the stacks
+		res.inconclusive("calls still pending 45 s after both associations were closed (real time)")
+		time.Sleep(90 * time.Second)
+	}
+	cmu.Lock()
+	nc, nf, nd := calls, failed, delivered
+	cmu.Unlock()
+	res.count("c20_rt_storms", 1)
+	res.count("c20_api_calls", nc)
+	res.res.Evals = nc
+	res.res.Nontrivial = nf > 0 && nd > 0
+	res.res.Sig = fmt.Sprintf("rt-storm|il%v|rbuf%d|f%v", il, spec.x("rbuf", 0), nf > 0)
+	res.res.Sample = map[string]any{"kind": "rt-storm", "calls": nc, "failed_writes": nf, "messages_read": nd, "interleaving": il}
+}
